@@ -21,6 +21,9 @@ CLAIMED = {
  "C14": dict(engine="hostnodes", path="harness/scen/c14.go", design="DESIGN.md section 4 (C14)",
    text="Seeded exploration of histories of the host: device nodes of every type (char, block, fifo, regular file, absent) exist only on the simulated disk (the sandbox cannot mknod), cached Specs carry device-node edits in every specification state, and a run interleaves injections (half repeating an earlier request into an equal OCI spec), Device/Spec.ApplyEdits, host-node changes (renumber, retype, remove, replace), writing a cached Spec back, and refreshes. After every step the JSON image of every cached Spec and device read through the query API is compared with the image taken before the first step; host-derived attributes are compared with the current simulated node; equal requests with no host change must give equal results.",
    note="Sequential (one client); manual refresh mode only, because writing a copy of a cached Spec into a watched directory would legitimately change resolution. Trusted: simulated lstat/mknod."),
+ "C11": dict(engine="converge", path="harness/scen/c11.go", design="DESIGN.md section 4 (C11)",
+   text="Seeded search over histories x pacings: 1-12 file-system operations of every kind the property lists, executed by 1-2 mutator tasks one system call at a time, interleaved by the seeded scheduler with the library's watcher goroutine, the fsnotify reader (batch reads of the inotify queue, tail coalescing, the lstat-at-delivery rule, watch removal on rmdir) and polling clients, with starvation knobs. Bounded liveness with an exact notion of 'changes have ceased': the simulated world has no timers, so quiescence means nothing can ever happen again; after quiescence, one query round, quiescence, the observed query round must equal (a) a cache freshly built by the real code from the final disk and (b) the reference model.",
+   note="Trusted: the inotify model (sim/memfs events per inotify(7)) and the fsnotify v1.5.1 stub reproduce what the real kernel/library deliver; queue overflow and renaming a configured directory are outside the deciding configuration."),
 }
 
 PURE = {
